@@ -13,6 +13,9 @@ pub use crate::translate_bytecode::CompiledProgram;
 thread_local! {
     static COUNTERS: [Cell<u32>; 4] = const { [Cell::new(1), Cell::new(1), Cell::new(1), Cell::new(1)] };
     static SKIP_OPTIMIZER: Cell<bool> = const { Cell::new(false) };
+    static GC_MANUAL: Cell<bool> = const { Cell::new(false) };
+    static QUARANTINE: Cell<bool> = const { Cell::new(false) };
+    static ALLOC_SEQ: Cell<u32> = const { Cell::new(0) };
 }
 
 /// Id source used (per thread) instead of the process-global counters for
@@ -40,4 +43,36 @@ pub fn set_skip_optimizer(skip: bool) {
 
 pub(crate) fn skip_optimizer() -> bool {
     SKIP_OPTIMIZER.with(|c| c.get())
+}
+
+pub use crate::vm::vm_verif::*;
+
+/// Manual collection mode: `maybe_gc` does nothing; the harness drives the real collector through
+/// `gc_start` / `gc_mark_one` / `gc_sweep_one`.
+pub fn set_gc_manual(on: bool) {
+    GC_MANUAL.with(|c| c.set(on));
+}
+pub(crate) fn gc_manual() -> bool {
+    GC_MANUAL.with(|c| c.get())
+}
+
+/// Quarantine mode: reclaimed objects are poisoned and kept instead of being returned to the
+/// allocator; any later access through a `Value` panics with "VERIF: use of reclaimed object".
+pub fn set_quarantine(on: bool) {
+    QUARANTINE.with(|c| c.set(on));
+}
+pub(crate) fn quarantine() -> bool {
+    QUARANTINE.with(|c| c.get())
+}
+
+/// Allocation sequence numbers restart at 0 (call before creating a Runtime).
+pub fn reset_alloc_seq() {
+    ALLOC_SEQ.with(|c| c.set(0));
+}
+pub(crate) fn next_alloc_seq() -> u32 {
+    ALLOC_SEQ.with(|c| {
+        let v = c.get();
+        c.set(v + 1);
+        v
+    })
 }
